@@ -307,4 +307,86 @@ theorem Obj.decodeParam_pl (o : Obj) (ho : o.ok) (key : String) (fuel : Nat) (d 
       { d with cursorByte := d.origin + b, cursorBit := o.bitPos.getD 0 } true hk]
 
 
+/-! ### the DOP of a LENGTH-KEY as the proofs see it -/
+
+/-- the LENGTH-KEY parameter of the object `o` with an arbitrary DOP -/
+def Obj.toKeyParamD (o : Obj) (dop : Dop) : Param := .mk o.name o.bytePos o.bitPos (.lengthKey dop)
+
+/-- **what the proofs use of the DOP of a LENGTH-KEY**: it occupies the unsigned object `o`; `v` = the key's (physical) value, the
+    bit length; `i` = the coded value that is written.  Instances: `KeyDop.identical` (`i = v`) and `KeyDop.linear`
+    (`Proofs/CompKeyLinear.lean`: a LINEAR compu method, e.g. a key that counts bytes). -/
+structure KeyDop (dop : Dop) (o : Obj) (v i : Int) : Prop where
+  obj : o.keyOk ∧ o.inRange (.int i)
+  static : dop.staticBitLen = some o.bl
+  /-- `is_valid_physical_value` of `encode_placeholder_into_pdu` -/
+  valid : ∀ (s : EncState), keyValidCheck dop v s true = .ok ((), s)
+  /-- "make sure that the length key is able to represent it" of `encode_value_into_pdu` -/
+  repr : ∀ (s : EncState), keyReprCheck dop v s true = .ok ((), s)
+  enc : ∀ (fuel pos : Nat) (s : EncState),
+    encodeDop (fuel + 1) dop (.atom (.int v)) { s with cursorByte := pos, cursorBit := o.bitPos.getD 0 } true =
+      .ok ((), cellStep (o, i, pos) s)
+  dec : ∀ (fuel : Nat) (d : DecState), o.pos d.origin d.cursorByte + o.k ≤ d.msg.length → (decStep o d).1 = .int i →
+    decodeDop (fuel + 1) dop { d with cursorByte := o.pos d.origin d.cursorByte, cursorBit := o.bitPos.getD 0 } true =
+      .ok (.atom (.int v), (decStep o d).2)
+
+theorem KeyDop.placeholder_none {dop : Dop} {o : Obj} {v i : Int} (h : KeyDop dop o v i) (s : EncState) :
+    encodeKeyPlaceholder o.name o.bytePos o.bitPos dop none s true =
+      .ok ((), { holeStep o s with keyPos := insertKV o.name (o.pos s.origin s.cursorByte) s.keyPos }) := by
+  cases hb : o.bytePos <;>
+  simp [encodeKeyPlaceholder, h.static, emplaceBytes, bind, pure, run_bind, run_pure,
+    run_getS, run_setS, run_modifyS, run_ite, run_raise, placeBytes_zeros, placeUsed_zeros, overlapCount_zeros, holeStep,
+    Obj.pos, Obj.k, Obj.bp, hb]
+
+theorem KeyDop.placeholder_some {dop : Dop} {o : Obj} {v i : Int} (h : KeyDop dop o v i) (s : EncState)
+    (hl : lookup o.name s.lengthKeys = none ∨ lookup o.name s.lengthKeys = some v) :
+    encodeKeyPlaceholder o.name o.bytePos o.bitPos dop (some (.atom (.int v))) s true =
+      .ok ((), { holeStep o s with keyPos := insertKV o.name (o.pos s.origin s.cursorByte) s.keyPos,
+                                   lengthKeys := insertKV o.name v s.lengthKeys }) := by
+  have hv := h.valid s
+  rcases hl with hl | hl <;> cases hb : o.bytePos <;>
+  simp [encodeKeyPlaceholder, hv, h.static, emplaceBytes, bind, pure, run_bind, run_pure,
+    run_getS, run_setS, run_modifyS, run_ite, run_raise, placeBytes_zeros, placeUsed_zeros, overlapCount_zeros, holeStep,
+    Obj.pos, Obj.k, Obj.bp, hb, hl]
+
+theorem KeyDop.decodeParam_eq {dop : Dop} {o : Obj} {v i : Int} (h : KeyDop dop o v i) (fuel : Nat) (d : DecState)
+    (hlen : o.pos d.origin d.cursorByte + o.k ≤ d.msg.length) (hv : (decStep o d).1 = .int i) :
+    decodeParam (fuel + 2) (o.toKeyParamD dop) d true = .ok ((Pair.hole o v).dec d) := by
+  have hrun := h.dec fuel d hlen hv
+  cases hb : o.bytePos <;>
+  · simp only [Obj.pos, hb] at hrun
+    simp only [Obj.toKeyParamD, hb, decodeParam, bind, run_bind, run_modifyS, hrun, pure, run_pure, Pair.hole, decStep, Obj.pos]
+
+/-- the decoder of the identical key DOP on a message whose cell holds `v` -/
+theorem decodeDop_key (o : Obj) (hk : o.keyOk) (v : Int) (fuel : Nat) (d : DecState)
+    (hlen : o.pos d.origin d.cursorByte + o.k ≤ d.msg.length) (hv : (decStep o d).1 = .int v) :
+    decodeDop (fuel + 1) o.keyDop { d with cursorByte := o.pos d.origin d.cursorByte, cursorBit := o.bitPos.getD 0 } true =
+      .ok (.atom (.int v), (decStep o d).2) := by
+  obtain ⟨hkind, ho⟩ := hk
+  obtain ⟨he, hbl, hsz⟩ := ho
+  have hb0 : o.bl ≠ 0 := by omega
+  unfold Obj.encOk at he
+  unfold Obj.sizeOk at hsz
+  unfold Obj.pos Obj.k Obj.bp at hlen
+  simp only [hkind] at he hsz
+  have h64 : ¬ (64 < o.bl) := by omega
+  simp only [decStep, Obj.ofRaw, hkind, Obj.pos, Obj.k, Obj.bp, IVal.int.injEq] at hv
+  cases hb : o.bytePos <;> simp only [hb] at hlen hv
+  all_goals
+    have hnl : ¬ (d.msg.length < _ + (o.bl + o.bitPos.getD 0 + 7) / 8) := Nat.not_lt.mpr hlen
+    subst hv
+    rcases he with he | he
+    all_goals
+      simp [Obj.keyDop, decodeDop, decodeDct, extractAtomic, extractCore, convertRaw,
+        uint32OfRaw, bind, pure, run_bind, run_pure, run_getS, run_modifyS, run_ite, run_raise, BaseType.isNumeric, hb0, hnl,
+        he, hb, h64, decStep, Obj.ofRaw, hkind, Obj.pos, Obj.k, Obj.bp]
+
+/-- the identical compu method: the coded value is the bit length itself -/
+theorem KeyDop.identical (o : Obj) (hk : o.keyOk) (v : Int) (hr : o.inRange (.int v)) : KeyDop o.keyDop o v v where
+  obj := ⟨hk, hr⟩
+  static := rfl
+  valid := fun _ => rfl
+  repr := fun _ => rfl
+  enc := fun fuel pos s => encodeDop_key o hk v hr pos fuel s
+  dec := fun fuel d hlen hv => decodeDop_key o hk v fuel d hlen hv
+
 end OdxVerif.Codec
